@@ -17,10 +17,10 @@ CONSTANTS
   RuleSets <- RuleSetsApps
   Senders = {"A","B","C"}
   Dests = {"A","B","C"}
-  UserRelays = {"","B"}
+  UserRelays = {"","A","B","C"}
   UserPorts = {"nft"}
   UserData = {}
-  RuleChains = {"B"}
+  RuleChains = {"A","B","C"}
   AdvOn = TRUE
   ExpirePairs <- NoPairs
   ExportOn = FALSE
@@ -36,7 +36,7 @@ CONSTANTS
   MtNatives <- MtNativesGen
   MtIds = {"t1"}
   Amounts = {1,2,7,14,15}
-  AppSenders = {"A","C"}
+  AppSenders = {"A","B","C"}
   Receivers = {"u1","u2","bad"}
   MaxPkts = 100
 INIT AInit
